@@ -3,7 +3,7 @@
    world reached by an ARBITRARY op sequence (new / backoff with any observed sleep / clone / fork /
    update-using-forked / reset / reset-max-sleep / cancel / kill), see Model.v. *)
 From Coq Require Import ZArith List Bool.
-From Verif Require Import Backoff.Model Backoff.ProofsBase Backoff.ProofsStep Backoff.ProofsInv Backoff.ProofsAcct Backoff.ProofsExt Backoff.ProofsCtx Backoff.ProofsWorker Backoff.ProofsTree Backoff.ProofsDomain.
+From Verif Require Import Backoff.Model Backoff.ProofsBase Backoff.ProofsStep Backoff.ProofsInv Backoff.ProofsAcct Backoff.ProofsExt Backoff.ProofsCtx Backoff.ProofsWorker Backoff.ProofsTree Backoff.ProofsDomain Backoff.ProofsCount.
 Import ListNotations.
 Open Scope Z_scope.
 
@@ -287,6 +287,51 @@ Theorem C20_domain_noop : forall e w i b,
 Proof. exact domain_noop. Qed.
 Print Assumptions C20_domain_noop.
 
+(* ---------- second extension round: theorems behind oracles that existed only in the check ---------- *)
+(* oracle C20_accounting: a back-off either changes nothing (error results) or accounts exactly one sleep on exactly one
+   back-offer: total / excluded / the kind's sleep and times / errorsNum / configs; nothing else in the world moves *)
+Theorem C20_step_exact : forall e w i c maxms errid s w' r,
+  step e w (OBackoff i c maxms errid s) = (w', r) ->
+  (w' = w /\ (forall real, r <> ROk real) /\ (forall real sg, r <> RKilled real sg)) \/
+  (exists b b' real, nth_error (w_bos w) i = Some b /\ nth_error (w_bos w') i = Some b' /\
+     (r = ROk real \/ exists sg, r = RKilled real sg) /\ real = cut s maxms /\
+     b_total b' = b_total b + real /\
+     b_excl b' = b_excl b + (if is_excl e (c_name c) then real else 0) /\
+     zget (c_name c) (b_sleep b') = zget (c_name c) (b_sleep b) + real /\
+     zget (c_name c) (b_times b') = zget (c_name c) (b_times b) + 1 /\
+     (forall n, n <> c_name c -> zget n (b_sleep b') = zget n (b_sleep b) /\ zget n (b_times b') = zget n (b_times b)) /\
+     b_errnum b' = b_errnum b + 1 /\ b_cfgs b' = b_cfgs b ++ [c] /\
+     b_max b' = b_max b /\ b_parent b' = b_parent b /\ b_ctx b' = b_ctx b /\ b_vars b' = b_vars b /\
+     (forall k, k <> i -> nth_error (w_bos w') k = nth_error (w_bos w) k) /\
+     w_ctxs w' = w_ctxs w /\ w_vars w' = w_vars w /\ w_cerr w' = w_cerr w).
+Proof. exact step_exact. Qed.
+Print Assumptions C20_step_exact.
+
+(* oracle C20_getters: on every back-offer of every reachable world GetTotalBackoffTimes (sum of backoffTimes) =
+   ErrorsNum = number of recorded configs (what String() and GetTypes list); the errors ring has its 3 slots *)
+Theorem C20_counters_agree : forall e ops i b, nth_error (w_bos (run e init_world ops)) i = Some b ->
+  sum_all (b_times b) = b_errnum b /\ b_errnum b = Z.of_nat (length (b_cfgs b)) /\ length (b_errs b) = 3%nat.
+Proof. exact counters_agree. Qed.
+Print Assumptions C20_counters_agree.
+
+(* latestErrors: after a back-off the ring reads as the last (at most 3) of "what it read before ++ the new error",
+   oldest first; it holds min(3, errorsNum) entries *)
+Theorem C20_errors_ring : forall e ops i b, nth_error (w_bos (run e init_world ops)) i = Some b ->
+  forall c f s maxms errid,
+    latest_errs (slept_bo e b c f s maxms errid) = last3 (latest_errs b ++ [errid]) /\
+    Z.of_nat (length (latest_errs b)) = Z.min 3 (b_errnum b).
+Proof. exact errors_ring. Qed.
+Print Assumptions C20_errors_ring.
+
+(* KVSnapshot.recordBackoffInfo over the calls made on one snapshot: the statistics of kind n are the sum, over the
+   calls whose back-offer slept at all (total <> 0), of that back-offer's backoffSleepMS[n] / backoffTimes[n] *)
+Theorem C20_stats_accumulate : forall e ops (idx : list nat) (bs : list bo) n,
+  Forall2 (fun i b => nth_error (w_bos (run e init_world ops)) i = Some b) idx bs ->
+  zget n (fst (record_all bs)) = fold_right (fun b a => (if counted b then zget n (b_sleep b) else 0) + a) 0 bs /\
+  zget n (snd (record_all bs)) = fold_right (fun b a => (if counted b then zget n (b_times b) else 0) + a) 0 bs.
+Proof. exact stats_thm. Qed.
+Print Assumptions C20_stats_accumulate.
+
 (* ---------- non-vacuity ---------- *)
 Definition ex_env := mkEnv [(4, 600000)] [6].
 Definition txnLock := mkCfg 1 2 100 3000 3 2.
@@ -367,3 +412,18 @@ Proof. vm_compute. reflexivity. Qed.
 Example ex_domain_noop_fork_sleeps : exists b, nth_error (w_bos (run ex_env init_world
     [ONew 0 0 2; OFork 0; OBackoff 0 regionMiss (-1) 1 2; OBackoff 1 regionMiss (-1) 2 2])) 1 = Some b /\ b_total b = 2 /\ b_noop b = false.
 Proof. eexists. vm_compute. repeat split. Qed.
+(* ring: four errors 1..4 recorded, the ring reads 2,3,4 *)
+Example ex_errors_ring : exists b, nth_error (w_bos (run ex_env init_world
+    [ONewVars 1 10; ONew 0 1 0; OBackoff 0 regionMiss (-1) 1 2; OBackoff 0 regionMiss (-1) 2 4;
+     OBackoff 0 regionMiss (-1) 3 8; OBackoff 0 regionMiss (-1) 4 16])) 0 = Some b /\
+    latest_errs b = [2; 3; 4] /\ b_errnum b = 4 /\ sum_all (b_times b) = 4 /\ length (b_cfgs b) = 4%nat.
+Proof. eexists. vm_compute. repeat split. Qed.
+(* statistics over two calls: back-offers 0 (slept 2+4 of regionMiss) and 1 (slept 2 of regionMiss, 75 of txnLock);
+   a third back-offer that only "slept" 0 ms (per-call maximum 0) is not recorded although its times counter is 1 *)
+Example ex_stats : let w := run ex_env init_world
+    [ONewVars 1 10; ONew 0 1 0; ONew 0 1 0; ONew 0 1 0;
+     OBackoff 0 regionMiss (-1) 1 2; OBackoff 0 regionMiss (-1) 2 4;
+     OBackoff 1 regionMiss (-1) 3 2; OBackoff 1 txnLock (-1) 4 75; OBackoff 2 regionMiss 0 5 2] in
+  let st := record_all (w_bos w) in
+  zget 3 (fst st) = 8 /\ zget 3 (snd st) = 3 /\ zget 2 (fst st) = 75 /\ zget 2 (snd st) = 1.
+Proof. vm_compute. repeat split. Qed.
